@@ -321,6 +321,9 @@ class FelicaStandard(tt3.Type3Tag):
         data = pack("<H", service_index)
         data = self.send_cmd_recv_rsp(0x0A, data, timeout, check_status=False)
         if data != b"\xFF\xFF":
+            if len(data) not in (2, 4):
+                log.debug("unexpected search service code response length")
+                raise tt3.Type3TagCommandError(tt3.DATA_SIZE_ERROR)
             unpack_format = "<H" if len(data) == 2 else "<HH"
             return unpack(unpack_format, data)
 
